@@ -8,7 +8,7 @@ distinct signatures are C06's subject.
 
 import itertools
 
-from .gen import SHAPES, Hierarchy, parse_shape, posets
+from .gen import SHAPES, FlavouredHierarchy, Hierarchy, parse_shape, posets
 
 TYPED = {k: [p[0] for p in parse_shape(v) if p[1] != "S"] for k, v in SHAPES.items()}
 
@@ -39,8 +39,9 @@ def multisets(descs, lo, hi, distinct=False):
         yield from comb(descs, L)
 
 
-def calls_for(type_names, shapes):
+def calls_for(type_names, shapes, value_names=None):
     """Every call shape some method of these shapes could accept, with every class tuple."""
+    type_names = value_names or type_names
     arities = set()
     kws = set()
     for sh in shapes:
@@ -66,6 +67,9 @@ def static_spaces(tier):
     """-> list of (space name, [hierarchies], descriptor-set fn, lo, hi, distinct, shapes)"""
     sp = []
     H = lambda lo, hi: [Hierarchy.get(a) for n in range(lo, hi + 1) for a in posets(n)]  # noqa
+    FL = [FlavouredHierarchy.get(f) for f in ("abc", "proto", "both")]
+    sp.append(("f1:flavoured(ABC+virtual subclass, protocol),1pos,L<=3,prio", FL, ["x"], (0, 1), 1, 3, False))
+    sp.append(("f2:flavoured,2pos,L<=2", FL, ["xy"], (0,), 1, 2, False))
     if tier == "quick":
         sp.append(("a:1pos,n<=4,L<=3,prio", H(0, 4), ["x"], (0, 1), 1, 3, False))
         sp.append(("b:2pos,n<=3,L<=3,prio", H(0, 3), ["xy"], (0, 1), 1, 3, False))
@@ -93,7 +97,7 @@ def iter_programs(tier, shard, nshards):
             for prog in multisets(ds, lo, hi, distinct):
                 if idx % nshards == shard:
                     if calls is None:
-                        calls = calls_for(h.type_names, shapes)
+                        calls = calls_for(h.type_names, shapes, getattr(h, "value_names", None))
                     yield name, h, prog, calls
                 idx += 1
 
